@@ -18,8 +18,8 @@ import (
 )
 
 type Program struct {
-	Prog *ssa.Program
-	Pkgs map[string]*ssa.Package
+	Prog   *ssa.Program
+	Pkgs   map[string]*ssa.Package
 	LoadMS int64
 }
 
@@ -28,10 +28,10 @@ type Program struct {
 func Load(dir string, overlay map[string][]byte, patterns ...string) (*Program, error) {
 	start := time.Now()
 	cfg := &packages.Config{
-		Mode:    packages.LoadAllSyntax,
-		Dir:     dir,
-		Overlay: overlay,
-		Env:     append(os.Environ(), "GOFLAGS=-mod=mod", "GOPROXY=off", "GOSUMDB=off", "GOTOOLCHAIN=local"),
+		Mode:       packages.LoadAllSyntax,
+		Dir:        dir,
+		Overlay:    overlay,
+		Env:        append(os.Environ(), "GOFLAGS=-mod=mod", "GOPROXY=off", "GOSUMDB=off", "GOTOOLCHAIN=local"),
 		BuildFlags: []string{"-tags=verif"},
 	}
 	pkgs, err := packages.Load(cfg, patterns...)
@@ -70,58 +70,61 @@ var defaultInitAllow = []string{
 }
 
 type Job struct {
-	ID       string            `json:"id"`
-	Pkg      string            `json:"pkg"`
-	Setup    string            `json:"setup,omitempty"`
-	Body     string            `json:"body"`
-	Params   map[string]string `json:"params,omitempty"`
-	MaxSteps int               `json:"max_steps,omitempty"`
-	MaxDepth int               `json:"max_depth,omitempty"`
-	MaxPaths int               `json:"max_paths,omitempty"`
-	Solver   string            `json:"solver,omitempty"`
-	TimeoutMS int              `json:"timeout_ms,omitempty"`
-	KeepWitnesses int          `json:"keep_witnesses,omitempty"`
-	WantPC   bool              `json:"want_pc,omitempty"`
-	Shard    int               `json:"shard,omitempty"`
-	Shards   int               `json:"shards,omitempty"`
-	ShardDepth int             `json:"shard_depth,omitempty"`
-	Base     string            `json:"base,omitempty"`
+	ID            string            `json:"id"`
+	Pkg           string            `json:"pkg"`
+	Setup         string            `json:"setup,omitempty"`
+	Body          string            `json:"body"`
+	Params        map[string]string `json:"params,omitempty"`
+	MaxSteps      int               `json:"max_steps,omitempty"`
+	MaxDepth      int               `json:"max_depth,omitempty"`
+	MaxPaths      int               `json:"max_paths,omitempty"`
+	Solver        string            `json:"solver,omitempty"`
+	TimeoutMS     int               `json:"timeout_ms,omitempty"`
+	KeepWitnesses int               `json:"keep_witnesses,omitempty"`
+	WantPC        bool              `json:"want_pc,omitempty"`
+	Shard         int               `json:"shard,omitempty"`
+	Shards        int               `json:"shards,omitempty"`
+	ShardDepth    int               `json:"shard_depth,omitempty"`
+	RootPrefix    []Decision        `json:"root_prefix,omitempty"`
+	ShedMS        int               `json:"shed_ms,omitempty"`
+	Base          string            `json:"base,omitempty"`
 }
 
 type Witness struct {
-	Replay []uint64 `json:"replay"`
-	Obs    []string `json:"obs"`
-	Panic  string   `json:"panic,omitempty"`
-	PC     string   `json:"pc,omitempty"`
-	Violating bool  `json:"violating,omitempty"`
+	Replay    []uint64 `json:"replay"`
+	Obs       []string `json:"obs"`
+	Panic     string   `json:"panic,omitempty"`
+	PC        string   `json:"pc,omitempty"`
+	Violating bool     `json:"violating,omitempty"`
 }
 
 type JobResult struct {
-	ID         string            `json:"id"`
-	Params     map[string]string `json:"params,omitempty"`
-	Body       string            `json:"body"`
-	Paths      int               `json:"paths"`
-	ByStatus   map[string]int    `json:"by_status"`
-	Decisions  int               `json:"decisions"`
-	Forced     int               `json:"forced"`
-	Asserts    int               `json:"asserts"`
-	TrivialAsserts int           `json:"trivial_asserts"`
-	ByteDecided int              `json:"byteset_decided"`
-	Base       string            `json:"base,omitempty"`
-	Steps      int64             `json:"steps"`
-	Violations []Violation       `json:"violations,omitempty"`
-	Witnesses  []Witness         `json:"witnesses,omitempty"`
-	ObsClasses int               `json:"obs_classes"`
-	Reached    []string          `json:"reached,omitempty"`
-	Inconclusive []string        `json:"inconclusive,omitempty"`
-	Solver     SolverStats       `json:"solver"`
-	SolverName string            `json:"solver_name"`
-	Fns        []string          `json:"fns,omitempty"`
-	Externals  []string          `json:"externals,omitempty"`
-	WallMS     int64             `json:"wall_ms"`
-	EngineError string           `json:"engine_error,omitempty"`
-	SetupError string            `json:"setup_error,omitempty"`
-	StoreMon   map[string]int    `json:"storemon,omitempty"`
+	ID             string            `json:"id"`
+	Params         map[string]string `json:"params,omitempty"`
+	Body           string            `json:"body"`
+	Paths          int               `json:"paths"`
+	ByStatus       map[string]int    `json:"by_status"`
+	Decisions      int               `json:"decisions"`
+	Forced         int               `json:"forced"`
+	Asserts        int               `json:"asserts"`
+	TrivialAsserts int               `json:"trivial_asserts"`
+	ByteDecided    int               `json:"byteset_decided"`
+	Base           string            `json:"base,omitempty"`
+	Steps          int64             `json:"steps"`
+	Violations     []Violation       `json:"violations,omitempty"`
+	Witnesses      []Witness         `json:"witnesses,omitempty"`
+	ObsClasses     int               `json:"obs_classes"`
+	Reached        []string          `json:"reached,omitempty"`
+	Inconclusive   []string          `json:"inconclusive,omitempty"`
+	Solver         SolverStats       `json:"solver"`
+	SolverName     string            `json:"solver_name"`
+	Fns            []string          `json:"fns,omitempty"`
+	Externals      []string          `json:"externals,omitempty"`
+	WallMS         int64             `json:"wall_ms"`
+	EngineError    string            `json:"engine_error,omitempty"`
+	SetupError     string            `json:"setup_error,omitempty"`
+	StoreMon       map[string]int    `json:"storemon,omitempty"`
+	Tasks          int               `json:"tasks,omitempty"`
 }
 
 type Interp struct {
@@ -193,7 +196,7 @@ func describePanic(p interface{}) string {
 }
 
 // RunJob explores one harness.
-func (in *Interp) RunJob(job Job) (res JobResult) {
+func (in *Interp) RunJob(job Job, shed func([][]Decision)) (res JobResult) {
 	start := time.Now()
 	res.ID = job.ID
 	res.Params = job.Params
@@ -238,6 +241,14 @@ func (in *Interp) RunJob(job Job) (res JobResult) {
 		ex.MaxPaths = job.MaxPaths
 	}
 	ex.WantPC = job.WantPC
+	ex.RootPrefix = job.RootPrefix
+	if shed != nil && job.ShedMS >= 0 {
+		ex.Shed = shed
+		ex.ShedEvery = time.Duration(job.ShedMS) * time.Millisecond
+		if job.ShedMS == 0 {
+			ex.ShedEvery = 1500 * time.Millisecond
+		}
+	}
 	ex.Shard, ex.Shards, ex.ShardDepth = job.Shard, job.Shards, job.ShardDepth
 	if ex.ShardDepth == 0 {
 		ex.ShardDepth = 8
@@ -387,4 +398,88 @@ func obsClass(obs []string) string {
 		}
 	}
 	return sb.String()
+}
+
+// MergeResults folds the result of a sub-task into the accumulated result
+// of its job (tasks partition the path tree, so counts add up).
+func MergeResults(acc *JobResult, r JobResult, keep int) {
+	if acc.ID == "" {
+		*acc = r
+		acc.Tasks = 1
+		return
+	}
+	acc.Tasks++
+	acc.Paths += r.Paths
+	for k, v := range r.ByStatus {
+		acc.ByStatus[k] += v
+	}
+	acc.Decisions += r.Decisions
+	acc.Forced += r.Forced
+	acc.Asserts += r.Asserts
+	acc.TrivialAsserts += r.TrivialAsserts
+	acc.ByteDecided += r.ByteDecided
+	acc.Steps += r.Steps
+	for _, v := range r.Violations {
+		if len(acc.Violations) < 60 {
+			acc.Violations = append(acc.Violations, v)
+		}
+	}
+	seen := map[string]bool{}
+	for _, w := range acc.Witnesses {
+		seen[obsClass(w.Obs)+"|"+w.Panic] = true
+	}
+	for _, w := range r.Witnesses {
+		c := obsClass(w.Obs) + "|" + w.Panic
+		if !seen[c] && len(acc.Witnesses) < keep {
+			seen[c] = true
+			acc.Witnesses = append(acc.Witnesses, w)
+		}
+	}
+	acc.ObsClasses = len(seen)
+	acc.Reached = unionSorted(acc.Reached, r.Reached)
+	acc.Fns = unionSorted(acc.Fns, r.Fns)
+	acc.Externals = unionSorted(acc.Externals, r.Externals)
+	acc.Inconclusive = append(acc.Inconclusive, r.Inconclusive...)
+	if len(acc.Inconclusive) > 20 {
+		acc.Inconclusive = acc.Inconclusive[:20]
+	}
+	acc.Solver.Queries += r.Solver.Queries
+	acc.Solver.Sat += r.Solver.Sat
+	acc.Solver.Unsat += r.Solver.Unsat
+	acc.Solver.Unknown += r.Solver.Unknown
+	acc.Solver.Errors += r.Solver.Errors
+	acc.Solver.WallNS += r.Solver.WallNS
+	if r.Solver.MaxNS > acc.Solver.MaxNS {
+		acc.Solver.MaxNS = r.Solver.MaxNS
+	}
+	acc.Solver.Resets += r.Solver.Resets
+	acc.WallMS += r.WallMS
+	if acc.EngineError == "" {
+		acc.EngineError = r.EngineError
+	}
+	if acc.SetupError == "" {
+		acc.SetupError = r.SetupError
+	}
+	for k, v := range r.StoreMon {
+		if acc.StoreMon == nil {
+			acc.StoreMon = map[string]int{}
+		}
+		acc.StoreMon[k] += v
+	}
+}
+
+func unionSorted(a, b []string) []string {
+	m := map[string]bool{}
+	for _, x := range a {
+		m[x] = true
+	}
+	for _, x := range b {
+		m[x] = true
+	}
+	out := make([]string, 0, len(m))
+	for x := range m {
+		out = append(out, x)
+	}
+	sort.Strings(out)
+	return out
 }
